@@ -322,6 +322,8 @@ def check(ctx):
     mode_decision(ctx, repo, "R5")
     from ..facademodel import periodic_update_keeps_the_mode
     periodic_update_keeps_the_mode(ctx, repo, "R5")
+    from ..facademodel import periodic_update_survives_unanswered_requests
+    periodic_update_survives_unanswered_requests(ctx, repo, "R5")
     ctx.rule("R7", "the facade keeps hearing about its devices: a device listener that raised once does not stop later changes of that device from being delivered (C03's Observable model borrowed) - the mode decision is re-evaluated on every pump / blower change")
     from .c03 import observers as _observers
     _observers(ctx.borrowed("R7", "C03", key_contains="failing-observer"), repo)
